@@ -61,8 +61,8 @@ ALPHABET = ['1', '0', 'a', '.', '+', '~', '-', ':', ' ', '\n', '_', 'é', '٣', 
 ENUM_LEN = {'quick': 4, 'thorough': 5}
 SMALL_ALPHABET = ['1', 'a', ':', '-']
 SMALL_LEN = {'quick': (5, 7), 'thorough': (6, 8)}
-RANDOM_STRINGS = {'quick': 60000, 'thorough': 1500000}
-HISTORIES = {'quick': 12000, 'thorough': 400000}
+RANDOM_STRINGS = {'quick': 120000, 'thorough': 4000000}
+HISTORIES = {'quick': 30000, 'thorough': 1200000}
 DPKG_SAMPLE = 300
 
 FLOORS = {'quick': {'nontrivial': 50000,
@@ -154,10 +154,14 @@ def _observe(v):
 
 
 def _k7_snapshot(self, attr, value):
-    return _observe(self)
+    # K7 is stated for the magic attributes only: the private slots are written
+    # through the same __setattr__ in the middle of an assignment (transient state)
+    return _observe(self) if attr in ATTRS else None
 
 
 def _k7_post(old, result, self, attr, value):
+    if old is None:
+        return
     now = _observe(self)
     if UNSET in now:
         return
@@ -174,6 +178,8 @@ def _k7_post(old, result, self, attr, value):
 
 
 def _k7_on_raise(old, exc, self, attr, value):
+    if old is None:
+        return
     now = _observe(self)
     if old != tuple(UNSET for _ in old):
         K7_COUNT['K7.raise'] += 1
@@ -196,6 +202,9 @@ def setup(ctx):
 
 def finish(ctx):
     contracts.flush_evals(ctx)
+    # the shim counts every wrapped call; K7 proper is evaluated for magic attributes on initialised objects only
+    ctx.monitor_evals['K7.calls'] += ctx.monitor_evals.pop('K7', 0)
+    ctx.monitor_evals['K7'] += K7_COUNT['K7.raise'] + K7_COUNT['K7.post']
     ctx.monitor_evals['K7.raise'] += K7_COUNT['K7.raise']
     ctx.monitor_evals['K7.post'] += K7_COUNT['K7.post']
     K7_COUNT['K7.raise'] = K7_COUNT['K7.post'] = 0
